@@ -235,6 +235,26 @@ func responderJobs(want func(string) bool) []func() *caseOut {
 		}
 		add(fmt.Sprintf("resp-race-%d", k), sc)
 	}
+	// (d) two responses in a row are held by the stream: the first acknowledgement and then the
+	// response that reports a rejected batch, which the Responder sends from its tick branch when the
+	// ticker and the bad-data channel were both ready after the first hold. While the second response is
+	// held another batch is rejected and one more accepted: the acknowledgement of the last batch must
+	// not pass the report of the rejected one.
+	for k := 0; k < 24*mult; k++ {
+		h0 := time.Duration(12+r.Intn(6)) * time.Millisecond
+		h1 := time.Duration(8+r.Intn(12)) * time.Millisecond
+		sc := &script{failFrom: -1, hold: map[int]time.Duration{0: h0, 1: h1}}
+		sc.batches = []batchSpec{
+			{n: 1 + r.Intn(4), out: "accept", waitBlocked: -1},
+			{n: 1 + r.Intn(4), out: "perm", waitBlocked: 0},
+			{n: 1 + r.Intn(4), out: "perm", waitBlocked: 1},
+			{n: 1 + r.Intn(4), out: "accept", waitBlocked: -1},
+		}
+		for e := r.Intn(3); e > 0; e-- {
+			sc.batches = append(sc.batches, batchSpec{n: 1 + r.Intn(4), out: randomOutcome(r, false), pre: aroundTick(r), waitBlocked: -1})
+		}
+		add(fmt.Sprintf("resp-heldbad-%d", k), sc)
+	}
 	// (b) bursts of permanent errors while a response is held: the channel (capacity 10) fills,
 	// ScheduleBadDataResponse blocks, composeBadDataResponse drains several ranges at once.
 	for k := 0; k < 8*mult; k++ {
